@@ -92,7 +92,7 @@ class SDevice(Device):
     d = np.zeros(len(r))
     c = self.c3*2*np.minimum((self.charge_at(r) - self.capacity*self.damage_depth), 0)
     for i in range(0, len(c)):
-      d += c[i]*np.hstack((np.ones(i+1), np.zeros(len(c)-i-1)))
+      d += c[i]*self._sustainment_matrix[i]*(self.efficiency**np.sign(r))
     return d
 
   def charge_at(self, r):
